@@ -56,6 +56,7 @@ pub struct RunInfo {
     pub diag_after_multibyte: usize,
     pub ref_diags: usize,
     pub r6_names_checked: usize,
+    pub g1_entry_points_compared: usize,
     pub r6_user_first: usize,
     pub g3_checked: usize,
     pub cycle_refusals: usize,
@@ -255,6 +256,41 @@ fn names_declared_in(text: &str, out: &mut BTreeSet<String>) {
     }
 }
 
+/// G3 (C11): a damage that leaves a malformed lexeme of a class C11 names must be diagnosed by the
+/// lexer on that lexeme. Only lexical facts are used, so this is evaluated even when the tree of
+/// the file does not spell its text.
+fn g3_damaged_lexemes(w: &World, m: &Model, info: &mut RunInfo, focus: Option<&str>) -> Option<Verdict> {
+    for d in &w.damage {
+        if let Some((class, lexeme_start)) = &d.g3 {
+            // find delivered instances of the damaged file
+            for inst in &m.insts {
+                let delivered_as_stored = match (&inst.text, w.nodes.get(&d.path)) {
+                    (Some(t), Some(crate::world::Node::File(b))) => t.as_bytes() == b.as_slice(),
+                    _ => false,
+                };
+                if inst.resolved.as_deref() == Some(d.path.as_str()) && delivered_as_stored {
+                    if let Some(facts) = &inst.facts {
+                        info.g3_checked += 1;
+                        if !facts.lex.iter().any(|e| e.0 == *lexeme_start) {
+                            soft_f!(info, focus, viol(
+                                    "G3",
+                                    C11,
+                                    &format!("undiagnosed/{}", class),
+                                    format!(
+                                        "`{}` was damaged ({}) at byte {}, which leaves a malformed {} starting at byte {}; no lexical diagnostic is located on that lexeme (lexical diagnostics at {:?})",
+                                        d.path, d.kind, d.at, class, lexeme_start,
+                                        facts.lex.iter().map(|e| e.0).collect::<Vec<_>>()
+                                    ),
+                                ));
+                        }
+                    }
+                }
+            }
+        }
+    }
+    None
+}
+
 /// Judge one executed run. `prop` selects nothing here: all oracles are evaluated in a fixed
 /// order and the first failing one is returned with the properties it belongs to.
 pub fn judge(w: &World, run: &Run, focus: Option<&str>) -> (Verdict, RunInfo) {
@@ -372,6 +408,9 @@ pub fn judge(w: &World, run: &Run, focus: Option<&str>) -> (Verdict, RunInfo) {
     // not spell the text it was parsed from makes every span meaningless (and the model stops
     // expanding at that file), so this is decided before anything else.
     if let Some((target, tree_len, text_len)) = &m.tree_mismatch {
+        if let Some(v) = g3_damaged_lexemes(w, &m, &mut info, focus) {
+            return (v, info);
+        }
         return (
             viol(
                 "S1",
@@ -384,6 +423,24 @@ pub fn judge(w: &World, run: &Run, focus: Option<&str>) -> (Verdict, RunInfo) {
             ),
             info,
         );
+    }
+
+    // ------------------------------------------------------------------ G1 the two parse entry points
+    for inst in &m.insts {
+        if let (Some(_), Some(facts)) = (&inst.text, &inst.facts) {
+            info.g1_entry_points_compared += 1;
+            if let Some((plain, checked)) = facts.plain_parse_differs {
+                soft!(info, focus, viol(
+                    "G1",
+                    C11,
+                    "syntactic-diagnostics-differ",
+                    format!(
+                        "`{}`: the lexer finds nothing in the delivered text, yet the lex-checked parse reports {} diagnostics and the plain parse (parser + validation) {}",
+                        inst.target, checked, plain
+                    ),
+                ));
+            }
+        }
     }
 
     // ------------------------------------------------------------------ S3 on the delivered texts
@@ -822,33 +879,8 @@ pub fn judge(w: &World, run: &Run, focus: Option<&str>) -> (Verdict, RunInfo) {
     }
 
     // ------------------------------------------------------------------ G3 torn lexemes
-    for d in &w.damage {
-        if let Some((class, lexeme_start)) = &d.g3 {
-            // find delivered instances of the damaged file
-            for inst in &m.insts {
-                let delivered_as_stored = match (&inst.text, w.nodes.get(&d.path)) {
-                    (Some(t), Some(crate::world::Node::File(b))) => t.as_bytes() == b.as_slice(),
-                    _ => false,
-                };
-                if inst.resolved.as_deref() == Some(d.path.as_str()) && delivered_as_stored {
-                    if let Some(facts) = &inst.facts {
-                        info.g3_checked += 1;
-                        if !facts.lex.iter().any(|e| e.0 == *lexeme_start) {
-                            soft!(info, focus, viol(
-                                    "G3",
-                                    C11,
-                                    &format!("undiagnosed/{}", class),
-                                    format!(
-                                        "`{}` was damaged ({}) at byte {}, which leaves a malformed {} starting at byte {}; no lexical diagnostic is located on that lexeme (lexical diagnostics at {:?})",
-                                        d.path, d.kind, d.at, class, lexeme_start,
-                                        facts.lex.iter().map(|e| e.0).collect::<Vec<_>>()
-                                    ),
-                                ));
-                        }
-                    }
-                }
-            }
-        }
+    if let Some(v) = g3_damaged_lexemes(w, &m, &mut info, focus) {
+        return (v, info);
     }
 
     // ------------------------------------------------------------------ G2 / R5 gating
